@@ -44,28 +44,62 @@ func setStores(c *Ctx, fn *ssa.Function) []setStore {
 	return out
 }
 
-func ruleRootLink(c *Ctx, r *RuleResult, fnName string, finders map[string]bool) {
-	fn := c.Fn(fnName)
-	P := NewProver(c, fn)
-	roots := map[ssa.Value]bool{}
-	for _, b := range fn.Blocks {
-		for _, in := range b.Instrs {
-			if call, ok := in.(*ssa.Call); ok {
-				if f := call.Call.StaticCallee(); f != nil && finders[c.short(f)] {
-					roots[call] = true
-				}
+// guardedRoots: values x for which `set[x] < 0` holds on an edge dominating blk.
+func guardedRoots(blk *ssa.BasicBlock) map[ssa.Value]bool {
+	out := map[ssa.Value]bool{}
+	for x := blk; x != nil; x = x.Idom() {
+		if len(x.Preds) != 1 {
+			continue
+		}
+		p := x.Preds[0]
+		iff, ok := p.Instrs[len(p.Instrs)-1].(*ssa.If)
+		if !ok || p.Succs[0] != x {
+			continue
+		}
+		bo, ok := iff.Cond.(*ssa.BinOp)
+		if !ok || bo.Op != token.LSS {
+			continue
+		}
+		if k, ok := constInt(bo.Y); !ok || k != 0 {
+			continue
+		}
+		if ld, ok := bo.X.(*ssa.UnOp); ok && ld.Op == token.MUL {
+			if ia, ok := ld.X.(*ssa.IndexAddr); ok {
+				out[ia.Index] = true
 			}
 		}
 	}
-	if len(roots) < 2 {
-		r.undecided("%s: fewer than two Find results; cannot identify the roots being linked", fnName)
-		return
+	return out
+}
+
+// provedDistinct: blk is dominated by an edge on which a != b.
+func provedDistinct(blk *ssa.BasicBlock, a, b ssa.Value) bool {
+	for x := blk; x != nil; x = x.Idom() {
+		if len(x.Preds) != 1 {
+			continue
+		}
+		p := x.Preds[0]
+		iff, ok := p.Instrs[len(p.Instrs)-1].(*ssa.If)
+		if !ok {
+			continue
+		}
+		bo, ok := iff.Cond.(*ssa.BinOp)
+		if !ok || !((bo.X == a && bo.Y == b) || (bo.X == b && bo.Y == a)) {
+			continue
+		}
+		onTrue := p.Succs[0] == x
+		if (bo.Op == token.NEQ && onTrue) || (bo.Op == token.EQL && !onTrue) {
+			return true
+		}
 	}
-	stores := setStores(c, fn)
-	if len(stores) == 0 {
-		r.undecided("%s: no store into the set found", fnName)
-		return
-	}
+	return false
+}
+
+// checkLinkStores judges the set stores of fn given the values known to be roots; it returns the
+// candidate values actually used (as index or stored value).
+func checkLinkStores(c *Ctx, r *RuleResult, fn *ssa.Function, fnName string, isRoot func(v ssa.Value, at *ssa.BasicBlock) bool, needDistinct bool) map[ssa.Value]bool {
+	P := NewProver(c, fn)
+	used := map[ssa.Value]bool{}
 	type linkAt struct {
 		idx ssa.Value
 		blk *ssa.BasicBlock
@@ -80,7 +114,7 @@ func ruleRootLink(c *Ctx, r *RuleResult, fnName string, finders map[string]bool)
 		}
 		return -1
 	}
-	for _, s := range stores {
+	for _, s := range setStores(c, fn) {
 		desc := c.srcAt(s.st.Pos())
 		if desc == "" && s.ia != nil {
 			desc = c.srcAt(s.ia.Pos())
@@ -89,18 +123,23 @@ func ruleRootLink(c *Ctx, r *RuleResult, fnName string, finders map[string]bool)
 			desc = valName(s.st.Addr)
 		}
 		r.inst("%s: store %s", fnName, desc)
-		if s.ia == nil || !roots[s.idx] {
+		if s.ia == nil || !isRoot(s.idx, s.st.Block()) {
 			r.oblig(false)
-			r.find(fnName+":"+desc+" index is not a root", c.instrPos(s.st), "%s stores into the set at an index that is not a result of Find in this function: linking a non-root detaches its former ancestors", fnName)
+			r.find(fnName+":"+desc+" index is not a root", c.instrPos(s.st), "%s stores into the set at an index that is not known to be a root (a result of Find, or an element whose entry was just tested negative): linking a non-root detaches its former ancestors", fnName)
 			continue
 		}
+		used[s.idx] = true
 		v := s.st.Val
 		switch {
-		case roots[v] && v != s.idx:
+		case v != s.idx && isRoot(v, s.st.Block()):
+			used[v] = true
 			links = append(links, linkAt{s.idx, s.st.Block(), posOf(s.st)})
-			r.oblig(true)
+			ok := !needDistinct || provedDistinct(s.st.Block(), s.idx, v)
+			r.oblig(ok)
+			if !ok {
+				r.find(fnName+":"+desc+" roots not known to differ", c.instrPos(s.st), "%s links root %s under root %s without having established that they differ: uniting an element with itself makes a root its own parent (or, after the rank bump, a child of an unrelated element)", fnName, valName(s.idx), valName(v))
+			}
 		case isDecrementOf(P, v, s.ia):
-			// the decremented root must not have been linked away before on this path
 			bad := false
 			for _, l := range links {
 				if l.idx == s.idx && (l.blk == s.st.Block() && l.pos < posOf(s.st) || (l.blk != s.st.Block() && l.blk.Dominates(s.st.Block()))) {
@@ -115,6 +154,83 @@ func ruleRootLink(c *Ctx, r *RuleResult, fnName string, finders map[string]bool)
 			r.oblig(false)
 			r.find(fnName+":"+desc+" value is neither the other root nor a rank bump", c.instrPos(s.st), "%s stores %s into a root's entry: it must be the other root (link) or the root's own entry minus one (rank)", fnName, valName(v))
 		}
+	}
+	return used
+}
+
+func ruleRootLink(c *Ctx, r *RuleResult, fnName string, finders map[string]bool) {
+	fn := c.Fn(fnName)
+	E := c.Eff()
+	findRes := map[ssa.Value]bool{}
+	for _, b := range fn.Blocks {
+		for _, in := range b.Instrs {
+			if call, ok := in.(*ssa.Call); ok {
+				if f := call.Call.StaticCallee(); f != nil && finders[c.short(f)] {
+					findRes[call] = true
+				}
+			}
+		}
+	}
+	rootHere := func(v ssa.Value, at *ssa.BasicBlock) bool {
+		return findRes[v] || guardedRoots(at)[v]
+	}
+	if len(setStores(c, fn)) > 0 {
+		checkLinkStores(c, r, fn, fnName, rootHere, true)
+		return
+	}
+	// the stores live in a helper that receives the two roots
+	n := 0
+	for _, b := range fn.Blocks {
+		for _, in := range b.Instrs {
+			call, ok := in.(*ssa.Call)
+			if !ok {
+				continue
+			}
+			h := call.Call.StaticCallee()
+			if h == nil || !c.inModule(h) || finders[c.short(h)] || h.Blocks == nil || len(setStores(c, h)) == 0 {
+				continue
+			}
+			_ = E
+			n++
+			hname := c.short(h)
+			params := map[ssa.Value]int{}
+			for i, p := range h.Params {
+				if isInt(p.Type()) {
+					params[p] = i
+				}
+			}
+			used := checkLinkStores(c, r, h, hname, func(v ssa.Value, at *ssa.BasicBlock) bool {
+				_, isParam := params[v]
+				return isParam || guardedRoots(at)[v]
+			}, false)
+			// obligations moved to the call site: every parameter used as a root receives a root, and they differ
+			var rootArgs []ssa.Value
+			desc := c.srcAt(call.Pos())
+			for p, i := range params {
+				if !used[p] {
+					continue
+				}
+				a := call.Call.Args[i]
+				rootArgs = append(rootArgs, a)
+				r.inst("%s: %s passes a root as %s", fnName, desc, h.Params[i].Name())
+				ok := rootHere(a, b)
+				r.oblig(ok)
+				if !ok {
+					r.find(fnName+":"+desc+" argument "+h.Params[i].Name()+" is not a root", c.instrPos(call), "%s passes %s to %s, which links it as a root, but it is neither a result of Find nor an element whose entry was just tested negative", fnName, valName(a), hname)
+				}
+			}
+			if len(rootArgs) == 2 {
+				ok := provedDistinct(b, rootArgs[0], rootArgs[1])
+				r.inst("%s: %s passes two different roots", fnName, desc)
+				r.oblig(ok)
+				if !ok {
+					r.find(fnName+":"+desc+" roots not known to differ", c.instrPos(call), "%s calls %s without having established that the two roots differ: uniting an element with itself makes a root its own parent (or, after the rank bump, a child of an unrelated element)", fnName, hname)
+				}
+			}
+		}
+	}
+	if n == 0 {
+		r.undecided("%s: no store into the set found, directly or in a helper it calls", fnName)
 	}
 }
 
@@ -211,13 +327,14 @@ func init() {
 		controls: func(ctl *Ctx) []*RuleResult {
 			f := map[string]bool{"(*dsctl.Set).Find": true}
 			var out []*RuleResult
-			for _, n := range []string{"(*dsctl.Set).BadUnionLinksElement", "(*dsctl.Set).BadUnionRankOfChild"} {
+			for _, n := range []string{"(*dsctl.Set).BadUnionLinksElement", "(*dsctl.Set).BadUnionRankOfChild", "(*dsctl.Set).BadUnionNoDistinctCheck", "(*dsctl.Set).BadUnionViaHelperFastPath"} {
 				rl := &RuleResult{Rule: "ROOTLINK"}
 				ruleRootLink(ctl, rl, n, f)
 				out = append(out, rl)
 			}
 			g := &RuleResult{Rule: "ROOTLINK"}
 			ruleRootLink(ctl, g, "(*dsctl.Set).GoodUnion", f)
+			ruleRootLink(ctl, g, "(*dsctl.Set).GoodUnionViaHelper", f)
 			out[0].Findings = append(out[0].Findings, g.Findings...)
 			cp := &RuleResult{Rule: "COMPRESS"}
 			ruleCompress(ctl, cp, "(*dsctl.Set).BadFind")
